@@ -300,6 +300,9 @@ pub fn hostile(ch: &mut Choices, big: bool) -> HostileCase {
         3 => {
             let kind = ch.below(N_FAMILIES);
             let n = if big { ch.int_in(1, 3000) } else { ch.int_in(1, 300) } as usize;
+            // the cost of analysing a call chain is quadratic in its length: keep the random sizes
+            // far below what the 10 s CPU limit of a CLI run in the unoptimised profile allows
+            let n = if kind == 9 { n.min(100) } else { n };
             HostileCase {
                 files: vec![("main.s".into(), family(kind, n))],
                 mode: format!("family:{kind}"),
